@@ -17,6 +17,8 @@ TNext == \/ (Is("Reset") /\ rng' = [u \in Units |-> None] /\ held' = <<>>)
          \/ (Is("PAlloc") /\ PAlloc(Ev.t, Ev.h, Ev.al))
          \/ (Is("PFree") /\ PFree(Ev.t, Ev.h, Ev.intact))
          \/ (Is("PMove") /\ PMove(Ev.t, Ev.h, Ev.to))
+         \* conservation: once every block has been returned, later users are served from the pool (no new page)
+         \/ (Is("PConserve") /\ Ev.live1 <= Ev.live0 /\ UNCHANGED hvars)
          \/ (Is("End") /\ (Ev.why = "done" => held = <<>>) /\ UNCHANGED hvars)
 TSpec == TInit /\ [][TNext]_tvars
 NotAccepted == l <= Len(TraceLog)
